@@ -218,8 +218,9 @@ func c19Explore(src *choice.Src) *core.Result {
 		for k, v := range op.fired {
 			res.Faults[k] += v
 		}
-		if len(op.fired) > 0 && (err == nil || got != "") {
-			res.Fail("C19", "fault-surfaces", "Hash1 returned a hash although opening or reading a file failed", "faults %v; result %q, %v", op.fired, got, err)
+		// a failed open or read may be retried; what may not happen is a hash of something else
+		if len(op.fired) > 0 && (err == nil && got != want || err != nil && got != "") {
+			res.Fail("C19", "fault-surfaces", "Hash1 returned a wrong hash although opening or reading a file failed", "faults %v; result %q, %v; the documented formula gives %s", op.fired, got, err, want)
 		}
 		if len(op.fired) == 0 && (err != nil || got != want) {
 			res.Fail("C19", "hash1-is-documented-formula", "Hash1 differs from the documented formula", "no fault delivered; got %q, %v; want %s", got, err, want)
